@@ -34,7 +34,7 @@ func historicalLookup(input OmegaInput) (output OmegaOutput) {
 
 	if account, accountExists := (*input.Addition.ServiceAccountState)[*s]; accountExists && input.VM.Registers[7] == 0xffffffffffffffff {
 		a = &account
-	} else if account, accountExists := (*input.Addition.ServiceAccountState)[types.ServiceID(input.VM.Registers[7])]; accountExists {
+	} else if account, accountExists := (*input.Addition.ServiceAccountState)[types.ServiceID(input.VM.Registers[7])]; accountExists && input.VM.Registers[7] <= 0xffffffff {
 		a = &account
 	}
 
